@@ -333,6 +333,9 @@ pub struct MacroIter<R: Reader> {
 impl<R: Reader> MacroIter<R> {
     /// Advance the iterator to the next entry in the `.debug_macro` section.
     pub fn next(&mut self) -> Result<Option<MacroEntry<R>>> {
+        if self.input.is_empty() {
+            return Ok(None);
+        }
         // DW_MACINFO_* and DW_MACRO_* have the same values, so we can use the same parsing logic.
         let macro_type = DwMacro(self.input.read_u8()?);
         match macro_type {
